@@ -182,4 +182,29 @@ theorem fn_ctx_reverse (inhf : NameSet) (outs : List BNode) (next : Nat) (hnd : 
   simp only [BCtx.reverse, checkDups, names, List.map_nil, hasDupStr, bind, Except.bind, Bool.false_eq_true, if_false,
     List.filterMap_nil, List.nil_append, hd]
 
+/-- the backward outputs of the FIRST layer of a chain are among the outputs of the reversed chain -/
+theorem reverse_chain_bag_outputs (bi bo : List BNode) (inh : NameSet) (c : BCtx) (outs : List BNode) (next : Nat)
+    (o' : List BNode) (es : List BEdge) (pp : List BNode) (n' : Nat)
+    (h : (BCtx.chain (.bag bi bo inh) c).reverse outs next = .ok (o', es, pp, n')) : ∀ n ∈ bo, n ∈ o' := by
+  simp only [BCtx.reverse, bind, Except.bind] at h
+  split at h
+  · cases h
+  · rename_i r1 h1
+    obtain ⟨o1, e1, p1, n1⟩ := r1
+    simp only at h
+    split at h
+    · cases h
+    · rename_i r2 h2
+      obtain ⟨o2, e2, p2, n2⟩ := r2
+      simp only [Except.ok.injEq, Prod.mk.injEq] at h
+      obtain ⟨rfl, _, _, _⟩ := h
+      split at h2
+      · cases h2
+      · split at h2
+        · cases h2
+        · simp only [Except.ok.injEq, Prod.mk.injEq] at h2
+          obtain ⟨rfl, _, _, _⟩ := h2
+          intro n hn
+          exact List.mem_append.2 (Or.inl hn)
+
 end CM
